@@ -254,14 +254,20 @@ def decode(desc, data, pos=0):
     if k == "str":
         n, pos = decode(("int", desc[1], False), data, pos)
         b, pos = _take(data, pos, n * desc[2])
-        return b.decode("iso-8859-1" if desc[2] == 1 else "utf-16-le", "surrogatepass"), pos
+        try:
+            return b.decode("iso-8859-1" if desc[2] == 1 else "utf-16-le"), pos
+        except UnicodeDecodeError:
+            raise RefError("malformed string data (unpaired surrogate)")
     if k == "stringn":
         w, pos = decode(("int", 2, False), data, pos)
         n, pos = decode(("int", 2, False), data, pos)
         if w not in (1, 2, 4):
             raise RefError("bad char size")
         b, pos = _take(data, pos, n * w)
-        return (b.decode({1: "utf-8", 2: "utf-16-le", 4: "utf-32-le"}[w]), w), pos
+        try:
+            return (b.decode({1: "utf-8", 2: "utf-16-le", 4: "utf-32-le"}[w]), w), pos
+        except UnicodeDecodeError:
+            raise RefError("malformed string data")
     if k == "bits":
         b, pos = _take(data, pos, desc[1])
         n = int.from_bytes(b, "little")
